@@ -2567,7 +2567,7 @@ func (self *LockDB) wakeUpWaitLocks(lockManager *LockManager, serverProtocol Ser
 		lockManager.glock.Lock()
 		waitLock := lockManager.GetWaitLock()
 		for waitLock != nil {
-			if !self.doLock(lockManager, waitLock) {
+			if !self.doLock(lockManager, waitLock) || (self.status != STATE_LEADER && waitLock.command.Flag&protocol.LOCK_FLAG_FROM_AOF == 0) {
 				lockManager.glock.Unlock()
 				return
 			}
